@@ -186,11 +186,11 @@ class C09(Check):
     prop_module = "PoxModel.Properties.C09"
     lean_targets = ["drv_c09"]
     driver = "drv_c09"
-    theorems = ["Pox.C09.up_once", "Pox.C09.down_once", "Pox.C09.registry_exact", "Pox.C09.registry_exact_no_overlap", "Pox.C09.early_ps",
-                "Pox.C09.close_only_when_lost", "Pox.C09.registry_exact_full_defect", "Pox.C09.registry_samedpid_needed_defect",
-                "Pox.C09.early_ps_full_defect", "Pox.C09.d3_defect", "Pox.C09.down_without_up_defect",
-                "Pox.C09.dispatch_after_disconnect_defect", "Pox.C09.error_closes_defect",
-                "Pox.C09.listeners_none_is_model", "Pox.C09.up_listener_disconnects_defect"]
+    _T = ["up_once", "up_raised", "down_once", "registry_exact_partial", "registry_exact_no_overlap", "early_ps_partial", "close_only_when_lost",
+          "up_once_listeners", "down_once_listeners"]
+    theorems = ["Pox.C09." + t for t in _T] + ["Pox.C09." + t + "_v" for t in _T] + ["Pox.C09." + t for t in [
+        "listeners_none_is_model", "registry_exact_full_defect", "early_ps_full_defect", "registry_samedpid_needed_defect",
+        "up_listener_disconnects_regression", "d3_defect", "down_without_up_defect", "dispatch_after_disconnect_defect", "error_closes_defect"]]
     # name-based anchors, resolved on the tree under test by common.AnchorCoverage (robust to line shifts)
     anchors = [('pox/openflow/of_01.py', n) for n in ['DefaultOpenFlowHandlers.handle_STATS_REPLY', 'DefaultOpenFlowHandlers.handle_PORT_STATUS', 'DefaultOpenFlowHandlers.handle_PACKET_IN', 'DefaultOpenFlowHandlers.handle_ERROR', 'DefaultOpenFlowHandlers.handle_BARRIER_REPLY', 'DefaultOpenFlowHandlers.handle_HELLO', 'DefaultOpenFlowHandlers.handle_ECHO_REQUEST', 'DefaultOpenFlowHandlers.handle_FEATURES_REPLY', 'HandshakeOpenFlowHandlers.handle_BARRIER_REPLY', 'HandshakeOpenFlowHandlers.handle_ERROR', 'HandshakeOpenFlowHandlers.handle_HELLO', 'HandshakeOpenFlowHandlers.handle_ECHO_REQUEST', 'HandshakeOpenFlowHandlers.handle_STATS_REPLY', 'HandshakeOpenFlowHandlers.handle_FEATURES_REPLY', 'HandshakeOpenFlowHandlers.handle_PORT_STATUS', 'HandshakeOpenFlowHandlers._finish_connecting', 'Connection.close', 'Connection.disconnect', 'Connection.send', 'handle_OFPST_DESC', 'OpenFlow_01_Task.run']] + \
               [('pox/openflow/__init__.py', n) for n in ['OpenFlowNexus.connections', 'OpenFlowNexus.getConnection', 'OpenFlowNexus.sendToDPID', 'OpenFlowNexus._connect', 'OpenFlowNexus._disconnect']]
@@ -199,17 +199,23 @@ class C09(Check):
     technique = ("Lean 4 proof (invariants over all operation histories of a small-step model of Connection/handshake handlers/nexus, "
                  "proved leaf by leaf through a closed-form case principle `step_elim`) + differential correspondence: the compiled model "
                  "against the real OpenFlow_01_Task loop, real Connection objects over scripted sockets, real handler tables and real nexus")
-    level_text = ("Theorems (Properties/C09.lean), each for EVERY history of accepts / message arrivals / EOFs / component disconnects / socket "
-                  "failures / sendToDPID calls over any number of connections and datapath ids: up_once (ConnectionUp at most once, and only by "
-                  "the barrier reply or BAD_REQUEST/BAD_TYPE error carrying the xid of the barrier request sent after the last features reply), "
-                  "down_once (at most one ConnectionDown, none without/before ConnectionUp, exactly one for an announced connection that is closed or "
-                  "disconnected, the only exception being the deferred event of a failed send until the task closes it), registry_exact (every entry is a "
-                  "live announced connection with that datapath id; the entry is exactly the most recently registered connection if still live; sendToDPID "
-                  "reaches exactly it), registry_exact_no_overlap (literal exactness when connections of one datapath never overlap), early_ps (the announcing "
-                  "step raises exactly the port-status received since the last features reply, in order, once each; none before), close_only_when_lost. "
-                  "The theorems are about `Cfg.rv v` for BOTH values of v: the code with the committed fixes D03, C09-1, C09-2, C09-3, without (v = false, /repo as it stands) or with "
-                  "(v = true) the proposed fix C09-5; the harness reads v off the source. *_defect theorems give the witnesses on the model of the unrepaired code and for the "
-                  "statements that remain false (findings C09-4, C09-5 at v = false, C09-6 in the listener model).")
+    level_text = ("Theorems (Properties/C09.lean), each for EVERY history of accepts / message arrivals / EOFs / component disconnects / socket failures / "
+                  "sendToDPID calls over any number of connections and datapath ids, headline versions about the tree as it stands (Cfg.repaired: /repo has D03, "
+                  "C09-1/2/3/5/6), `_v` versions about either variant of C09-5 (the harness probes which one the tree has): up_once (ConnectionUp at most once, "
+                  "only by the barrier reply or BAD_REQUEST/BAD_TYPE error carrying the xid of the barrier request sent after the last features reply), up_raised (the "
+                  "converse: a live handshaking connection with a working socket gets its barrier request on the features reply, and unless it is lost / its socket "
+                  "breaks / the handshake restarts meanwhile, that barrier reply or error DOES raise ConnectionUp on both levels), down_once (at most one "
+                  "ConnectionDown, none without/before ConnectionUp, exactly one for an announced connection that is closed or disconnected, the only exception being "
+                  "the deferred event of a failed send until the task closes it), close_only_when_lost. PARTIAL, weaker than the property's clause, and the file "
+                  "proves the clause itself false for the code: registry_exact_partial (every entry is a live announced connection with that datapath id; the entry is "
+                  "exactly the most recently REGISTERED connection if still live, else nobody — not 'every live datapath is reachable': registry_exact_full_defect, open "
+                  "finding C09-4; literal exactness only when connections of one datapath never overlap: registry_exact_no_overlap) and early_ps_partial (the announcing "
+                  "step raises exactly the port-status received since the LAST features reply, in order, once each; earlier ones are dropped: early_ps_full_defect). "
+                  "Re-entrant listeners (a ConnectionUp listener that sends / calls sendToDPID / disconnects, a ConnectionDown listener that calls sendToDPID): "
+                  "up_once_listeners, down_once_listeners are proved over the listener model runL for every such behaviour (at most one Up / Down per connection and "
+                  "level, no Down without nexus-level Up, no Up after a Down, and with C09-6 in place no Down in the step that raises the connection-level Up); the "
+                  "registry and early-port-status statements are NOT proved with listeners (tested and model-compared only). Regression witnesses for every committed "
+                  "repair are kept on the models of the reverted code.")
     level_note = ("Trusted: Lean kernel, axioms propext/Classical.choice/Quot.sound, the hand-written model Model/Conn.lean (tied to the code only by this "
                   "correspondence run), the harness (scripted sockets, fake listener, recording listeners, unpacker wrapper). Assumed, not proved: event listeners "
                   "do not re-enter the connection (no halt, no disconnect/send from inside a handler); default OpenFlowConnectionArbiter; xid counter does not wrap; "
@@ -217,13 +223,14 @@ class C09(Check):
     trusted_base = ["harness/c09.py detect_variant: whether the tree has the repairs C09-5 / C09-6 is decided by probing the real code on two witness histories (source shape = cross-check only, never aborts); the driver evaluates the model at that variant and the correspondence validates the choice",
                     "model Model/Conn.lean (+ Model/ConnL.lean for re-entrant listeners) hand-written from of_01.py / openflow/__init__.py; tied by this correspondence run",
                     "harness: real OpenFlow_01_Task.run generator driven by hand (fake listener socket, scripted connection sockets), recording listeners, `_connect` wrapper"]
-    assumptions = ["THEOREMS: listeners of the lifecycle events do not re-enter the connection (no halt / disconnect / send inside a handler). Beyond that, TESTED and "
-                   "MODEL-COMPARED but not proved (Model/ConnL.lean `runL`, which provably equals the verified model when there are no such listeners: listeners_none_is_model): "
-                   "nexus-level ConnectionUp listeners that send on the connection, call sendToDPID or disconnect the connection; ConnectionDown listeners that call "
-                   "sendToDPID(event.dpid)",
+    assumptions = ["the base theorems (up_once, up_raised, down_once, registry_exact_partial, early_ps_partial, close_only_when_lost) assume listeners that do not re-enter the "
+                   "connection (no halt / disconnect / send inside a handler); for listeners that do (nexus-level ConnectionUp listeners that send, call sendToDPID or disconnect; "
+                   "ConnectionDown listeners that call sendToDPID(event.dpid)) up_once_listeners / down_once_listeners are proved over Model/ConnL.lean `runL` (which provably equals "
+                   "the base model without such listeners: listeners_none_is_model), and everything else is tested and model-compared only; listeners that halt an event, or "
+                   "listeners on the connection level / on other events, are not covered at all",
                    "the default OpenFlowConnectionArbiter (nexus = core.openflow); miss_send_len and clear_flows_on_connect at their defaults",
                    "fewer than 2^31 xids drawn per run; every ofp_error message carries data; a read() delivers whole messages (framing is C02)",
-                   "registry_exact on the tree as it stands (variant v = false) assumes each connection's features replies name one datapath id (otherwise: finding C09-5); with fixes/C09-5 applied (v = true, read off the source by detect_variant) it is unconditional"]
+                   "on a tree with the commit of C09-5 reverted (variant v = false, detected by probing) registry_exact_partial_v assumes each connection's features replies name one datapath id; on the tree as it stands it is unconditional"]
     rule = ("case = history of {connect, recv(c, batch of messages), lose(c, eof|select-error), disc(c), sockfail(c), sendto(d)} over <= 4 connections, "
             "datapath ids {5,6,7} and the edge ids {0, 1, 2^63, 2^64-1} (every hand-written, loss-point and 2-connection history is repeated with them, half of the generated ones use them); corpus = 19 hand-written histories (D3, orphan, dpid change, wrong xid, send errors...), loss at each of 6 points of the handshake "
             "x {eof, select error, disconnect(), send error} x {alone, beside a live connection of the same datapath} x 2 batchings, every interleaving of the 4 handshake "
